@@ -28,6 +28,16 @@ class DocActions(object):
     self._engine.out_actions.summary.add_records(table_id, row_ids)
 
     self._engine.add_records(table_id, row_ids, column_values)
+    self._prevent_trigger_recalc(table, row_ids)
+
+  def _prevent_trigger_recalc(self, table, row_ids):
+    # Records added by a doc action come with their values. Their trigger formulas must not get
+    # recalculated merely because the columns they depend on are "changing" in the new rows (in
+    # particular on undo of a removal, or when a value is given explicitly). The AddRecord
+    # useraction re-enables the calculation for the columns that should be computed for new records.
+    for col in table.all_columns.values():
+      if col.has_formula() and not col.is_formula():
+        self._engine.prevent_recalc(col.node, row_ids, should_prevent=True)
 
   def RemoveRecord(self, table_id, row_id):
     return self.BulkRemoveRecord(table_id, [row_id])
@@ -113,6 +123,7 @@ class DocActions(object):
     self._engine.invalidate_records(table_id, old_data.row_ids)
 
     self._engine.load_table(actions.TableData(table_id, row_ids, column_values))
+    self._prevent_trigger_recalc(table, row_ids)
 
   #----------------------------------------
   # Actions on columns.
